@@ -175,6 +175,21 @@ class Eval:
         except RuntimeError:
             if err is None:
                 V.append(("simulation-fails:%s" % cls, "Simulation(file) fails although the archive exposes %d snapshots; cut at %s [%s]" % (L, where, tag)))
+        # ---- opener 4: the C one-call constructor reb_simulation_create_from_file (last and first snapshot)
+        cl.reb_simulation_create_from_file.restype = ctypes.c_void_p
+        cl.reb_simulation_create_from_file.argtypes = [ctypes.c_char_p, ctypes.c_int64]
+        cl.reb_simulation_free.argtypes = [ctypes.c_void_p]
+        for snap in (-1, 0):
+            q = cl.reb_simulation_create_from_file(fn.encode(), snap)
+            if q:
+                tq = rebound.Simulation.from_address(q).t
+                if err is not None:
+                    V.append(("c-simulation-opens-unopenable:%s" % cls, "reb_simulation_create_from_file(file, %d) returns a simulation although Simulationarchive(file) fails; cut at %s [%s]" % (snap, where, tag)))
+                elif L >= 1 and L <= len(sc.ref) and tq != sc.ref[L - 1 if snap == -1 else 0][0]:
+                    V.append(("c-simulation-wrong-snapshot:%s" % cls, "reb_simulation_create_from_file(file, %d) returns t=%r, the archive's snapshot has t=%r; cut at %s [%s]" % (snap, tq, sc.ref[L - 1 if snap == -1 else 0][0], where, tag)))
+                cl.reb_simulation_free(ctypes.c_void_p(q))
+            elif err is None and L >= 1:
+                V.append(("c-simulation-fails:%s" % cls, "reb_simulation_create_from_file(file, %d) returns NULL although the archive exposes %d snapshots; cut at %s [%s]" % (snap, L, where, tag)))
         # ---- restart from the last exposed snapshot and finish the run
         if restart and err is None and L >= 1 and not V:
             try:
@@ -357,7 +372,7 @@ def run(ctx):
             "second_level_restarts": len(scen2), "second_level_images": len(tasks2), "second_level_outcomes": len(outcomes2),
             "evaluations": len(tasks) + len(tasks2), "distinct_nontrivial": len(outcomes) + len(outcomes2),
             "rule": "crash image = archive after every byte prefix of the strace-logged write(2) sequence of a 5-snapshot history (manual snapshots with a structural change, step cadence, interval cadence); "
-                    "distinct = (cut class from the file's own field map, number of snapshots exposed); each image is opened by three openers, compared with the uninterrupted archive and restarted to completion",
+                    "distinct = (cut class from the file's own field map, number of snapshots exposed); each image is opened by four openers (Python Simulationarchive, reb_simulationarchive_create_from_file, Simulation(file), reb_simulation_create_from_file), compared with the uninterrupted archive and restarted to completion",
             "samples": [{"integ": scen[0].integ, "mode": scen[0].mode, "mods": [(m[0], m[1], len(m[2])) if m[0] == "write" else m for m in scen[0].mods], "save_calls_end_after_mod": scen[0].marks, "sizes": scen[0].ends}],
             "scenarios": ["%s/%s" % (s.integ, s.mode) for s in scen], "cut_classes": classes,
             "exhaustive": True,
